@@ -267,6 +267,7 @@ fn scen_doc() -> crate::doc::Doc {
         final_newline: true,
         pad: None,
         crlf: false,
+        bom: false,
     }
 }
 
